@@ -118,7 +118,7 @@ def run(cx: Cx):
     sites = cx.effects.sites_of((DW, 'cells'))
     allowed = {DW + '.__init__', add.qualname, rem.qualname}
     for s in sites:
-        if s.fn.qualname not in allowed:
+        if s.owner_q not in allowed:
             cx.violation('R-DISC', s.fn.qualname, f"cells-{s.kind}", f"{s.describe()}: the cell table is written outside the constructor / "
                          f"add_cell_component / remove_cell_component", where=s.where)
     cx.floor('cell table write sites', len(sites), 5)
@@ -132,7 +132,7 @@ def run(cx: Cx):
         else:
             cx.violation('R-GUARD', cg_call.qualname, 'returns-the-constant', f"ConstantGenerator.__call__ returns {v!r}", where=cx.where(cg_call))
     vs = cx.effects.sites_of((ENV + 'ConstantGenerator', 'value'))
-    if all(s.fn.name == '__init__' and s.ev.data.get('value') == Sym('value') for s in vs) and vs:
+    if all(s.owner_name == '__init__' and s.ev.data.get('value') == Sym('value') for s in vs) and vs:
         cx.ok('R-DISC', 'ConstantGenerator.value is single-assignment from the constructor argument', where=vs[0].where, function=vs[0].fn.qualname)
     else:
         cx.violation('R-DISC', ENV + 'ConstantGenerator', 'value-single-assignment', "ConstantGenerator.value is written outside its constructor",
